@@ -42,6 +42,9 @@ pub enum Step {
     SearchTimeout { adapted: bool, late: bool },
     Abandon(AbandonTarget),
     Unsolicited(u8),
+    /// as after a wrap-around: move the id counter back so that the ids of past (completed, timed-out,
+    /// abandoned, finished) operations are handed out again; whoever gets them must work normally
+    Rewind(u8),
 }
 
 #[derive(Clone, Debug, Serialize, Deserialize)]
@@ -66,6 +69,7 @@ fn strat(_: &Ctx) -> BoxedStrategy<Case> {
         1 => (any::<bool>(), any::<bool>()).prop_map(|(adapted, late)| Step::SearchTimeout { adapted, late }),
         3 => prop_oneof![Just(AbandonTarget::Finished), Just(AbandonTarget::TimedOut), Just(AbandonTarget::InFlight), Just(AbandonTarget::NeverIssued)].prop_map(Step::Abandon),
         1 => (0u8..3).prop_map(Step::Unsolicited),
+        3 => (1u8..6).prop_map(Step::Rewind),
     ];
     (vec(step, 3..=14), 1u8..=3, any::<u64>()).prop_map(|(steps, repeat, sched)| Case { steps, repeat, sched }).boxed()
 }
@@ -341,6 +345,10 @@ async fn do_step(cx: &mut Cx, step: &Step) -> Result<(), Fail> {
             let ab = cx.sh.lock().unwrap().abandons.clone();
             ensure!(ab.len() == before + 1 && ab[before] == target as i64, "c13:abandon-request", "abandon({}) put {:?} on the wire", target, &ab[before..]);
         }
+        Step::Rewind(k) => {
+            let mut m = cx.msgmap.lock().unwrap();
+            m.0 = (m.0 - *k as i32).max(0);
+        }
         Step::Unsolicited(k) => {
             let id = 2_000_000 + cx.next_idx as i64;
             let msg = match k {
@@ -365,6 +373,7 @@ fn step_class(s: &Step) -> String {
         Step::SingleTimeout(..) => "single-timeout".into(),
         Step::SearchTimeout { adapted, .. } => format!("search-timeout-{}", if *adapted { "adapted" } else { "direct" }),
         Step::Unsolicited(_) => "unsolicited".into(),
+        Step::Rewind(_) => "rewind-id-counter".into(),
     }
 }
 
@@ -429,7 +438,7 @@ pub fn check(case: &Case, obs: &mut Obs) -> Result<(), Fail> {
     for n in notes {
         obs.label(n);
     }
-    let interesting = case.steps.iter().filter(|s| !matches!(s, Step::Single(_) | Step::SingleError(..) | Step::Unsolicited(_))).count();
+    let interesting = case.steps.iter().filter(|s| !matches!(s, Step::Single(_) | Step::SingleError(..) | Step::Unsolicited(_) | Step::Rewind(_))).count();
     if case.steps.len() >= 3 && interesting >= 1 {
         obs.nontrivial(format!("{:?}", case.steps));
     }
@@ -440,7 +449,7 @@ pub fn property() -> Property {
     Property {
         id: "C13",
         level: "exploration",
-        rule: "generated histories of 3-14 steps, repeated 1-3 times on one connection (up to 42 steps), mixing: the 7 single-result operations (success and error codes), operations and searches that time out against a silent server (with or without a late reply), direct / EntriesOnly / search() / PagedResults / [EntriesOnly, PagedResults] searches with 0-4 entries (x 1-3 pages) read to the end or finish()ed after k items - also while the search is still OPEN at the driver (the server withholds the final result of the page / search and sends it late), abandon of a finished, timed-out, in-flight or never-issued id, unsolicited responses. Oracle at every quiescent point (virtual-clock quiescence: no task can run): the id table's in-use set is empty and both routing-map gauges are 0; abandon puts an AbandonRequest naming exactly the id on the wire, releases a waiting caller with an error, and the id leaves the in-use set. Non-trivial: >=3 steps including >=1 search, abandon or timeout. Distinct = debug rendering of the step list.",
+        rule: "generated histories of 3-14 steps, repeated 1-3 times on one connection (up to 42 steps), mixing: the 7 single-result operations (success and error codes), operations and searches that time out against a silent server (with or without a late reply), direct / EntriesOnly / search() / PagedResults / [EntriesOnly, PagedResults] searches with 0-4 entries (x 1-3 pages) read to the end or finish()ed after k items - also while the search is still OPEN at the driver (the server withholds the final result of the page / search and sends it late), abandon of a finished, timed-out, in-flight or never-issued id, unsolicited responses, and rewinds of the id counter (as after a wrap-around) so that later operations are handed the ids of past ones and must work normally. Oracle at every quiescent point (virtual-clock quiescence: no task can run): the id table's in-use set is empty and both routing-map gauges are 0; abandon puts an AbandonRequest naming exactly the id on the wire, releases a waiting caller with an error, and the id leaves the in-use set. Non-trivial: >=3 steps including >=1 search, abandon or timeout. Distinct = debug rendering of the step list.",
         assumptions: &["hooks verif_msgmap / verif_gauges expose the id table and the sizes of the routing maps", "streams dropped without finish() are not 'completed' and are not generated", "server disconnects are C04's"],
         lanes: vec![Box::new(PLane { name: "histories", cases: |t| t.pick(1_000, 15_000), strat, check })],
         workers: (8, 16),
